@@ -63,7 +63,24 @@ func (m *merkleStream) Gen(r *tr.Rng) *tr.Op {
 	txid := leaves[pos]
 	index := uint32(pos)
 	cls := "genuine"
-	switch r.Intn(14) {
+	switch r.Intn(17) {
+	case 14: // a genuine proof for an identifier that is the leaf followed by more bytes: only the length rule refuses it
+		txid = append(append([]byte{}, txid...), r.Bytes(1+r.Intn(32))...)
+		cls = "txid-extended"
+	case 15: // the leaf ends in a zero byte and is presented without it
+		leaves[pos] = append(append([]byte{}, leaves[pos][:31]...), 0)
+		levels = buildTree(leaves)
+		root = levels[len(levels)-1][0]
+		path = merklePath(levels, pos)
+		txid = leaves[pos][:31]
+		cls = "txid-short-zero-tail"
+	case 16: // genuine proof, root followed by one more byte / cut by one byte
+		if r.Chance(50) {
+			root = append(append([]byte{}, root...), 0)
+		} else {
+			root = root[:31]
+		}
+		cls = "root-resized"
 	case 0, 1:
 	case 2: // alias: same low bits, extra high bits
 		index = uint32(pos) + uint32(1+r.Intn(3))<<uint(depth)
